@@ -81,6 +81,18 @@ pub fn word_args(w: &Value, tree: &[Node], a: &mut Vec<String>) {
                 a.push(w["n"].as_u64().unwrap_or(0).to_string());
             }
         }
+        "exec" => {
+            a.push("-exec".into());
+            match w["c"].as_str().unwrap_or("true") {
+                "exists" => a.extend(["test".to_string(), "-e".into(), "{}".into()]),
+                c => a.push(c.to_string()),
+            }
+            a.push(";".into());
+        }
+        "fls" => {
+            a.push("-fls".into());
+            a.push("../F3".into());
+        }
         "prune" => a.push("-prune".into()),
         "quit" => a.push("-quit".into()),
         "print" => {
@@ -265,7 +277,10 @@ impl Prop for PSem {
                 x if x.starts_with('a') => {
                     // standard output, or one of the two output files (each named by at most one action)
                     let file = if !free_files.is_empty() && rng.chance(1, 3) { free_files.remove(rng.below(free_files.len())) } else { 0 };
-                    match rng.below(4) {
+                    match rng.below(6) {
+                        // actions without output of their own: they still suppress the default -print
+                        4 => json!({"k": "exec", "c": *rng.pick(&["true", "false", "exists"])}),
+                        5 if rng.chance(1, 3) => json!({"k": "fls"}),
                         0 => json!({"k": "print", "delim": 10, "file": file}),
                         1 => json!({"k": "print", "delim": 0, "file": file}),
                         _ => {
